@@ -26,7 +26,7 @@ for name in sys.argv[2:]:
     known = load_known()
     for f in ctx.findings:
         if not match_known(f, known):
-            print("  FINDING", f.rule, f.function, "|", f.construct[:80], "|", f.message[:300])
+            print("  FINDING", f.rule, f.func, "|", f.construct[:80], "|", f.message[:300])
     for u in ctx.undecided:
         print("  UNDEC", u.rule, u.site, u.reason[:300])
     for rid, n in ctx.floors.items():
